@@ -237,6 +237,14 @@ func c02ArithSources(rng *rand.Rand, n int) []c02Src {
 	for _, s := range fixed {
 		out = append(out, c02Src{"const-arith", s})
 	}
+	// chains with a NON-constant head and a constant tail: the optimizer may not re-associate them (the head can hold a float at
+	// run time whatever its static type says - interface{} members, elements of []interface{}, results of functions returning
+	// interface{} - and `x + 1 + 2` rounds twice where `x + 3` rounds once; strings and integers are re-associable, floats are not)
+	for _, h := range []string{"Any", "AA[0]", "AF[0]", "AF[1]", "Id(F64)", "Id(Any)", "F64", "F32", "MA.k", "I", "I8", "U64", "S", "Id(AF[0])", "(B ? Any : 1)", "-Any"} {
+		for _, tail := range []string{" + 1 + 2", " + 1 + 1", " + 2 + 1 + 2", " - 1 - 2", " + 1 - 2", " * 3 * 3", " + 1 + 2 == " + h + " + 3", ` + "a" + "b"`, " + (1 + 2)", " + 1 + 2 + I"} {
+			out = append(out, c02Src{"non-constant head, constant tail", h + tail})
+		}
+	}
 	// every operator x every parameter kind (literals retyped by the checker)
 	for _, fn := range c02KindFns {
 		for _, a := range []string{"1 + 2", "100 + 100", "200 - 300", "0 - 4", "16 * 17", "200 / 3", "-200 / 3", "300 / 2", "(200 - 300) / 2", "7 / 2", "1 / 2", "3 - 1 / 2", "1 / 0", "0 / 0", "5 % 3", "2 ** 3",
@@ -1013,7 +1021,7 @@ type c02Input struct {
 func runC02() {
 	rep := newReport("C02")
 	rng := rand.New(rand.NewSource(*seed))
-	nArith, nGeneral, nEnvs, keep := 220, 220, 4, 30
+	nArith, nGeneral, nEnvs, keep := 220, 220, 5, 30
 	if *tier == "thorough" {
 		nArith, nGeneral, nEnvs, keep = 4000, 5000, 8, 100
 	}
